@@ -139,25 +139,31 @@ def main(tier):
                 chk.violation({"op": "test-fails-under-gc", "program": name, "schedule": sched}, "%s reports failures under %s: %s" % (name, sched, fl[:3]))
     log("C10 (b): %d collections checked" % heapchecks)
     # ---------------- (c) boundedness of whole-program churn
-    for heap in ([None, "300k"] if quick else [None, "300k", "16M"]):
+    for heap, prog, per_round, settle in [(h, pr, n, st) for h in ([None, "300k"] if quick else [None, "300k", "16M"])
+                                          for pr, n, st in (("churn.scm", 20000, 12), ("churn2.scm", 7000, 8))]:
         if chk.out_of_time():
             break
-        r = common.evalbatch("asan", [os.path.join(common.VERIF, "scheme", "heap", "churn.scm")], heap=heap, timeout=900,
+        r = common.evalbatch("asan", [os.path.join(common.VERIF, "scheme", "heap", prog)], heap=heap, timeout=900,
                              env={"VERIF_POISON": "1", "VERIF_HEAPCHECK": "1"})
         m = re.search(r"^SIZES \((.*)\)$", r.out, re.M)
         hc = re.search(r"^HEAPCHECK (.*)$", r.out, re.M)
         if r.rc != 0 or not m or "AddressSanitizer" in r.out:
-            chk.violation({"op": "churn-crash", "heap": heap}, "churn program ended abnormally: " + r.out[-500:])
+            chk.violation({"op": "churn-crash", "heap": heap, "program": prog}, "churn program %s ended abnormally: %s" % (prog, r.out[-500:]))
             continue
         sizes = [int(x) for x in m.group(1).split()]
-        chk.count(len(sizes) * 20000, outcome="churn-alloc")
-        chk.sample({"churn_heap_sizes": sizes[:3] + ["..."] + sizes[-3:], "initial_heap": heap or "default"})
-        # bounded: the last 12 samples are constant (a fixpoint was reached in the first half)
-        if len(set(sizes[12:])) != 1:
-            chk.violation({"op": "churn-growth", "heap": heap, "sizes": sizes},
-                          "heap keeps growing with bounded live data: total sizes per round %s" % sizes)
+        chk.count(len(sizes) * per_round, outcome="churn-alloc")
+        chk.sample({"program": prog, "churn_heap_sizes": sizes[:3] + ["..."] + sizes[-3:], "initial_heap": heap or "default"})
+        # bounded: the samples after the settling rounds are constant (a fixpoint was reached in the first half)
+        if len(set(sizes[settle:])) != 1:
+            chk.violation({"op": "churn-growth", "heap": heap, "program": prog, "sizes": sizes},
+                          "%s: heap keeps growing with bounded live data: total sizes per round %s" % (prog, sizes))
+        # ... and stays within a constant multiple of the live data (churn2 keeps < 300 KB alive)
+        initial = {"300k": 300 * 1024, "16M": 16 * 1024 * 1024}.get(heap, 2 * 1024 * 1024)
+        if prog == "churn2.scm" and sizes[-1] > max(24 * 1024 * 1024, 2 * initial):
+            chk.violation({"op": "churn-size", "heap": heap, "program": prog, "sizes": sizes},
+                          "%s: heap reached %d bytes for < 300 KB of live data (first round %d)" % (prog, sizes[-1], sizes[0]))
         if hc and hc.group(1).strip() != "#t":
-            chk.violation({"op": "heap-after-churn", "heap": heap}, "heap malformed after churn: " + hc.group(1))
+            chk.violation({"op": "heap-after-churn", "heap": heap, "program": prog}, "heap malformed after %s: %s" % (prog, hc.group(1)))
     chk.cov["states"] = states
     chk.cov["transitions"] = transitions
     chk.cov["traces_validated_against_impl"] = replays
